@@ -139,6 +139,13 @@ func (l *Lexer) readMultiComment() string {
 	defer pool.Put(buf)
 	buf.Reset()
 
+	// The opener "/*" first: its star cannot serve as the star of the closing "*/",
+	// "/*/" is not a complete comment.
+	buf.WriteRune(l.char) // '/'
+	l.readChar()
+	buf.WriteRune(l.char) // '*'
+	l.readChar()
+
 	for l.char != 0x00 {
 		if l.char == '*' && l.peekChar() == '/' {
 			buf.WriteRune(l.char)
